@@ -23,7 +23,23 @@ def canon(got):
     return ('ok', a.shape, a.astype(np.float64).tobytes())
 
 
+def raw_fetches(ans):
+    """the model's fetch list in issue order (not coalesced); None when the model refuses / has no entry"""
+    if not ans.startswith('ok '):
+        return None
+    fetch_s = ans[3:].split('|')[1]
+    return [tuple(int(x) for x in f.split(':')) for f in fetch_s.strip().split(',') if f]
+
+
 def run(ctx):
+    model = core.Model()
+    try:
+        run_(ctx, model)
+    finally:
+        model.close()
+
+
+def run_(ctx, model):
     rng = gen.rng_for(ctx.seed, 'c17')
     n_files = 10 if ctx.quick else 120
     kinds = ('default', 'zslice', 'general', '2d', 'irregular', 'default', 'b0is4')
@@ -50,6 +66,18 @@ def run(ctx):
                     tcanon = canon(truth)
                     nreads = len(log)
                     ctx.stats['fault_free_calls'] += 1
+                    # K: the sequence of range reads the call issues vs the model's fetch list (Model/Loader, Model/IO):
+                    # same reads in the same order on the sequential local backend, same multiset on the 20-worker backend
+                    req = readcheck.model_request(fi, op)
+                    mf = None
+                    if req is not None:
+                        ctx.stats['corr_requests'] += 1
+                        mf = raw_fetches(model.ask(req))
+                        obs = [(o - s.data_start, l) for (o, l, _) in log]
+                        if mf is None or (sorted(mf) != sorted(obs)) or (not blob and mf != obs):
+                            ctx.corr_fail('Model.IO/fetch-sequence', req, (mf or [])[:8], obs[:8],
+                                          {'file': desc, 'op': op, 'blob': blob})
+                            mf = None
                     # permuted completion order, no fault: must equal the truth (blob backend)
                     if blob:
                         again, _ = s.run(op)
@@ -75,6 +103,23 @@ def run(ctx):
                         ctx.stats['fault_' + '+'.join(sorted(plan.values()))] += 1
                         ctx.stats['backend_' + ('blob' if blob else 'file')] += 1
                         c = canon(got)
+                        # K: the model's verdict for this fault position (Lean `faultRaises`, theorem
+                        # read_call_fault_is_reported) vs what the real call did
+                        if mf is not None and len(plan) == 1:
+                            (k0, _kind), = plan.items()
+                            ctx.stats['corr_requests'] += 1
+                            verdict = model.ask(f'io fault {k0} ' + req[len('read '):])
+                            real = 'raise' if c[0] != 'ok' else 'value'
+                            if verdict != real:
+                                ctx.corr_fail('Model.IO/faultRaises', f'io fault {k0} {req}', verdict, real,
+                                              {'file': desc, 'op': op, 'plan': plan, 'blob': blob})
+                        # the fault is over: the same call, fault-free, on the same reader must give the true value again
+                        if len(ctx.nontrivial) % 3 == 0 or not ctx.quick:
+                            again, _ = s.run(op, cold=False)
+                            if canon(again) != tcanon:
+                                ctx.fail(f'read {op}: after an earlier call on this reader failed with an injected I/O fault '
+                                         f'({plan}), the fault-free call returned {"a different value" if again[0] == "ok" else "an error"}',
+                                         {'file': desc, 'op': op, 'plan': plan, 'blob': blob, 'sequence': 'faulted call, then clean call'})
                         if c[0] == 'ok' and c != tcanon:
                             ctx.fail(f'read {op}: range read #{sorted(plan)} failed ({plan}) but the call returned a value that '
                                      f'differs from the true one', {'file': desc, 'op': op, 'plan': plan, 'blob': blob, 'fired': fired[:3]})
